@@ -392,9 +392,9 @@ func FuzzParse(f *testing.F)         { vf.Fuzz(f, "C17", subPositive) }
 func FuzzParseNegative(f *testing.F) { vf.Fuzz(f, "C17", subNegative) }
 
 func init() {
-	subPositive = vf.Sub[Case]{Name: "positive", Quick: 20000, Thorough: 300000, Gen: genPositive, Check: check, Floor: 0.3,
+	subPositive = vf.Sub[Case]{Name: "positive", Quick: 20000, Thorough: 120000, Gen: genPositive, Check: check, Floor: 0.3,
 		Rule: "syntax trees (size <=25) over Go-identifier-shaped names, exactly-one groups {a, b} of 1..4 names, rendered with minimal or redundant parentheses at each node, right-nested operator chains (and, for the associative operators, unparenthesised left operands), ';' at top level and inside parentheses, optional trailing ';', random whitespace incl. tabs/newlines/CRLF between tokens; oracle = own evaluator of the tree under all assignments vs Formula.Eval of the parse result; non-trivial = two different binary operators adjacent without parentheses"}
-	subNegative = vf.Sub[Case]{Name: "negative", Quick: 10000, Thorough: 150000, Gen: genNegative, Check: check, Floor: 0.5,
+	subNegative = vf.Sub[Case]{Name: "negative", Quick: 10000, Thorough: 80000, Gen: genNegative, Check: check, Floor: 0.5,
 		Rule: "token-level corruptions of a valid rendering: operand deleted, operator deleted or doubled, parenthesis deleted or added, token appended, empty text, {}, {a,}; corruptions that the harness's own recogniser of the documented grammar still accepts are discarded (counted as excluded); asserted: error != nil, formula == nil, no panic; non-trivial = the corrupted text is ill-formed"}
 	subChains := vf.Sub[Case]{Name: "long-chains", Quick: 60, Thorough: 600, Gen: genChain, Check: check, Floor: 0,
 		Rule: "flat chains of 40..4000 (possibly negated) variables joined by one operator (';', '&', '|', '->'; '=' chains are kept under 17 operands because Formula.Eval of nested equivalences is exponential), one operand per line or on one line (a third of the chains use identifiers of 150..400 characters, so that the single line exceeds 64 KB); the parse result must be equivalent to the right-nested reading under all assignments of the 4 variables"}
